@@ -104,6 +104,7 @@ def run(rep, tier):
                     check_byname(rep, db, f, inst); cnt("byname")
                 elif f["n"] in (SB + "::lookup_symbol", SB + "::internal_lookup_symbol"):
                     check_cache(rep, db, f, inst, fillers); cnt("cache")
+                    check_cache_isolation(rep, db, f, inst)
                 elif f["sn"] == "impl_invoke_with_func_ptr" and not db.label.startswith("model32"):
                     check_backend(rep, db, f, inst); cnt("backend")
                 elif f["n"] in (SB + "::INTERNAL_get_sandbox_function_ptr", SB + "::INTERNAL_get_sandbox_function_name"):
@@ -179,6 +180,24 @@ def check_arg_representation(rep, db, f, inst):
                 return
     if checked:
         rep.ok("R-C11-abi", site(f), "%d arguments have their sandbox-ABI size" % checked, inst)
+
+
+def check_cache_isolation(rep, db, f, inst):
+    """R-C11-cache [isolation]: a lookup function consults only the cache it fills (the two backend resolvers may return different
+    representations of one symbol, so a hit in the OTHER cache is the wrong answer)"""
+    maps = set()
+    for p in q.paths(db, f):
+        for e in p.events:
+            if e.kind == "CALL" and e.c is not None and q.short(e.a) in ("find", "operator[]", "at", "count", "contains", "lower_bound", "insert", "emplace", "insert_or_assign", "try_emplace"):
+                t = fmt(e.c)
+                for m in ("internal_func_ptr_map", "func_ptr_map"):
+                    if m in t:
+                        maps.add(m)
+                        break
+    if len(maps) > 1:
+        rep.violation("R-C11-cache", site(f) + " [isolation]", "%s consults both symbol caches (%s): a symbol first resolved by the other lookup is answered with that lookup's representation" % (f["sn"], ", ".join(sorted(maps))), f["loc"], inst)
+    elif maps:
+        rep.ok("R-C11-cache", site(f) + " [isolation]", "only %s is consulted" % next(iter(maps)), inst)
 
 
 def check_invoke(rep, db, f, inst):
